@@ -941,6 +941,30 @@ fn main() {
             }
             println!("ok raw line intersection");
         }
+        "line_locate_point" => {
+            use geo::LineLocatePoint;
+            use geo_types::{LineString, Point};
+            let l = Line::new(coord! {x: 1.0, y: 1.0}, coord! {x: 5.0, y: 4.0});
+            let near = |a: Option<f64>, b: f64| matches!(a, Some(v) if (v - b).abs() < 1e-12);
+            let ok = near(l.line_locate_point(&Point::new(1.0, 1.0)), 0.0)
+                && near(l.line_locate_point(&Point::new(2.0, 1.75)), 0.25)
+                && near(l.line_locate_point(&Point::new(5.0, 4.0)), 1.0)
+                && near(l.line_locate_point(&Point::new(9.0, 7.0)), 1.0)
+                && near(l.line_locate_point(&Point::new(-3.0, -2.0)), 0.0)
+                && near(l.line_locate_point(&Point::new(3.0 - 3.0, 2.5 + 4.0)), 0.5)
+                && near(Line::new(coord! {x: 2.0, y: 2.0}, coord! {x: 2.0, y: 2.0}).line_locate_point(&Point::new(7.0, 7.0)), 0.0);
+            if !ok {
+                fail("Line::line_locate_point differs from the clamped projection parameter".to_string());
+            }
+            // segments of length 3, 4, 3; ties in distance go to the FIRST segment
+            let ls: LineString<f64> = vec![(0.0, 0.0), (3.0, 0.0), (3.0, 4.0), (0.0, 4.0)].into();
+            for (q, want) in [((1.0, 0.0), 0.1), ((3.0, 2.0), 0.5), ((1.5, 4.0), 0.85), ((1.0, 1.0), 0.1), ((2.0, 5.0), 0.8), ((4.0, -1.0), 0.3), ((0.0, 4.0), 1.0)] {
+                if !near(ls.line_locate_point(&Point::new(q.0, q.1)), want) {
+                    fail(format!("LineString::line_locate_point({:?}) = {:?}, expected {want}", q, ls.line_locate_point(&Point::new(q.0, q.1))));
+                }
+            }
+            println!("ok line locate point");
+        }
         _ => {
             eprintln!("unknown op {op}");
             std::process::exit(4);
